@@ -9,7 +9,7 @@ def step(rnd, pool, shadow, log):
     """perform one random operation; returns None or a failure string"""
     names = list(pool)
     a = rnd.choice(names)
-    op = rnd.choice(['slice', 'slice', 'empty-slice', 'add', 'add', 'setitem', 'setitem-empty', 'pad-inplace', 'pad-copy', 'shift-inplace', 'shift-copy',
+    op = rnd.choice(['slice', 'slice', 'empty-slice', 'add', 'add', 'iadd', 'setitem', 'setitem-empty', 'pad-inplace', 'pad-copy', 'shift-inplace', 'shift-copy',
                      'copy', 'hash-lookup', 'eq', 'foreign-operand', 'iter-zip', 'iter-nested', 'value', 'bitwise', 'invert', 'chunks', 'new', 'observe-mutate-observe', 'observe-mutate-observe'])
     A, sa = pool[a], shadow[a]
     n = len(sa)
@@ -29,6 +29,12 @@ def step(rnd, pool, shadow, log):
         elif op == 'add':
             b = rnd.choice(names)
             pool[new], shadow[new] = A + pool[b], sa + shadow[b]
+        elif op == 'iadd':
+            # x = a; x += b : the name x is rebound to the sum, the object a stays what it was (Buffer defines no in-place addition)
+            b = rnd.choice(names)
+            x = A
+            x += pool[b]
+            pool[new], shadow[new] = x, sa + shadow[b]
         elif op in ('setitem', 'setitem-empty'):
             b = rnd.choice(names)      # b may be a itself: b[i:j] = b has the list semantics l[i:j] = l
             s = rnd.randint(0, n)
